@@ -687,3 +687,92 @@ type reopenRoots struct{}
 func (reopenRoots) GetRoots() []mcp.Root {
 	return []mcp.Root{{URI: "file:///verif-client-root", Name: "r"}}
 }
+
+// runRequestSlotsAcrossReopen: an id-less SendRequest (the transport assigns the id) is pending on the OLD stream and is
+// never answered; the client re-opens; a second id-less SendRequest goes out on the new stream; the first caller gives
+// up (its context ends); then the client answers the second request: that answer must reach the second caller.
+func runRequestSlotsAcrossReopen(c *hk.Ctx) {
+	f := hk.NewFixture(hk.SrvCfg{Mode: "stateful", Get: true, PostSSE: false})
+	defer f.Close()
+	r := f.Post(nil, `{"jsonrpc":"2.0","id":1,"method":"initialize","params":{"protocolVersion":"2025-03-26","capabilities":{"roots":{"listChanged":true}},"clientInfo":{"name":"v","version":"1"}}}`)
+	sid := ""
+	if r.Header != nil {
+		sid = r.Header.Get("Mcp-Session-Id")
+	}
+	f.Post(map[string]string{"Mcp-Session-Id": sid}, `{"jsonrpc":"2.0","method":"notifications/initialized"}`)
+	h := map[string]string{"Mcp-Session-Id": sid}
+	seen := func(st *hk.Stream, wait time.Duration) string {
+		deadline := time.Now().Add(wait)
+		for time.Now().Before(deadline) {
+			for _, e := range st.Snapshot() {
+				var m map[string]any
+				if json.Unmarshal([]byte(e.Data), &m) == nil && m["method"] == "roots/list" {
+					b, _ := json.Marshal(m["id"])
+					return string(b)
+				}
+			}
+			time.Sleep(2 * time.Millisecond)
+		}
+		return ""
+	}
+	_, _, a, err := f.OpenStream(h)
+	if err != nil || a == nil {
+		c.Noise()
+		return
+	}
+	firstDone := make(chan struct{})
+	go func() {
+		defer close(firstDone)
+		ctx, cancel := context.WithTimeout(context.Background(), 1200*time.Millisecond)
+		defer cancel()
+		f.S.SendRequest(ctx, sid, &mcp.JSONRPCRequest{JSONRPC: "2.0", Request: mcp.Request{Method: "roots/list"}})
+	}()
+	if seen(a, 2*time.Second) == "" {
+		c.Count("request-slots", false, nil, "first-request-not-seen")
+		a.CloseByClient()
+		return
+	}
+	_, _, b, err := f.OpenStream(h)
+	if err != nil || b == nil {
+		c.Noise()
+		return
+	}
+	defer b.CloseByClient()
+	type res struct {
+		raw string
+		err error
+	}
+	second := make(chan res, 1)
+	go func() {
+		ctx, cancel := context.WithTimeout(context.Background(), 6*time.Second)
+		defer cancel()
+		raw, err := f.S.SendRequest(ctx, sid, &mcp.JSONRPCRequest{JSONRPC: "2.0", Request: mcp.Request{Method: "roots/list"}})
+		s := ""
+		if raw != nil {
+			s = string(*raw)
+		}
+		second <- res{s, err}
+	}()
+	id := seen(b, 2*time.Second)
+	select { // the first caller gives up before the client answers the second request
+	case <-firstDone:
+	case <-time.After(3 * time.Second):
+	}
+	time.Sleep(20 * time.Millisecond)
+	if id != "" {
+		f.Post(h, fmt.Sprintf(`{"jsonrpc":"2.0","id":%s,"result":{"roots":[{"uri":"file:///verif-slot","name":"r"}]}}`, id))
+	}
+	var got res
+	select {
+	case got = <-second:
+	case <-time.After(7 * time.Second):
+		got = res{"", fmt.Errorf("SendRequest did not return")}
+	}
+	c.Count("request-slots", true, nil, "request-slots-across-reopen")
+	if id == "" || got.err != nil || !strings.Contains(got.raw, "verif-slot") {
+		c.Violate(hk.Violation{Fingerprint: "streams:server-request-after-headers-not-on-newest:request-slot",
+			What:     "a request of the server was pending (unanswered) from the old stream; after the new stream's headers a second request went out on it; the first caller gave up; the client's answer to the second request did not reach its caller",
+			Input:    map[string]any{"steps": []string{"open A", "SendRequest #1 (id assigned by the transport, written on A, never answered)", "open B", "SendRequest #2 (on B)", "caller #1 gives up", "client answers #2"}},
+			Observed: map[string]any{"second_request_seen_on_new_stream": id != "", "error": fmt.Sprint(got.err), "result": got.raw}})
+	}
+}
